@@ -210,7 +210,8 @@ class Renderer {
         const depth = ctx.s.length
         for (const r of n.slotRefs || []) { ctx.s.push(ctx.slotValues ? ctx.slotValues[r.name] : undefined); ctx.paths.push(null) }
         const rec = this.rec(n.attrs, ctx)
-        const slot = n.slot === undefined || n.slot === null ? undefined : this.val(n.slot, ctx)
+        // slot names are strings: static verbatim, dynamic values stringified with null/undefined as ''
+        const slot = n.slot === undefined || n.slot === null ? undefined : this.valStr(n.slot, ctx)
         this.nodes(n.kids, { ...ctx, slotValues: undefined }, kids)
         ctx.s.length = depth
         ctx.paths.length = depth
